@@ -100,3 +100,23 @@ Theorem generated_overlap_filter_split_refines_model :
   ltac:(let t := type of overlap_filter_tables_split_rows_refines_proj in exact t).
 Proof. exact overlap_filter_tables_split_rows_refines_proj. Qed.
 Print Assumptions generated_overlap_filter_split_refines_model.
+
+(* ---- tie: the remaining public wrappers as REGENERATED from the source on this run (Gen/WrapperGen.v,
+   Gen/FilterWrapperGen.v over Model/Frame.v): overlap_coefficient_join_py, edit_distance_join_py,
+   overlap_join_py and the filters' filter_tables compute header_spec + the rows of api_join (entry
+   EJoin / EFilter / EOverlapFilter) through the declared projection, per chunk up to order *)
+From SSJ Require Import Frame WrapperGen FilterWrapperGen WrapperBody WrapperApiLink WrapperEnd WrapperRefineOvc WrapperRefineEd FilterWrapperRefineOverlap FilterWrapperRefine FilterWrapperRefineClosed.
+
+(* ---- tie: matcher/apply_matcher.py and Filter.filter_candset as REGENERATED from the source on this run
+   (Gen/MatcherGen.v over Model/Frame.v) compute exactly apply_matcher_model / filter_candset_model
+   (Model/Matcher.v) through the declared projection: key->row dictionaries, token cache, empty-candset
+   shortcut, split_table on frames, per-chunk loop, concat *)
+From SSJ Require Import Frame MatcherGen MatcherRefineBase MatcherRefineLoop MatcherRefineCandLoop MatcherRefineSplit MatcherRefinePar MatcherRefineChunks MatcherRefine MatcherRefineBridge MatcherRefineEnd MatcherRefineEndCand.
+Theorem generated_overlap_filter_tables_wrapper :
+  ltac:(let t := type of overlap_filter_tables_rows_end_to_end_flat in exact t).
+Proof. exact overlap_filter_tables_rows_end_to_end_flat. Qed.
+Print Assumptions generated_overlap_filter_tables_wrapper.
+Theorem generated_filter_candset_refines_model :
+  ltac:(let t := type of filter_candset_rows_end_to_end in exact t).
+Proof. exact filter_candset_rows_end_to_end. Qed.
+Print Assumptions generated_filter_candset_refines_model.
